@@ -31,9 +31,12 @@ import (
 
 // Module "rangewalk" (C32, spec/misc/RangeWalk.tla).
 //
-//	{tree: [node], ctl: [[k, code]], stable: 0|1}        the message is built from the tree of steps (schema rw.N, dynamicpb)
-//	{typ, b, ctl, stable}                                the message is typ decoded from b; out.tree is its projection
-//	-> out {walk, vals, ret, ok, valid, npush, nev [, tree]}
+//	{tree: [node], ctl: [[k, code]], stable: 0|1, cb}    the message is built from the tree of steps (schema rw.N, dynamicpb)
+//	{typ, b, ctl, stable, cb}                            the message is typ decoded from b; out.tree is its projection
+//	-> out {walk, vals, ret, ok, valid, npush, nev, ids [, tree]}
+//
+// cb = 0: Options.Range with push and pop; 1: push only (the function protorange.Range where the global resolver applies);
+// 2: pop only.
 //
 // node = {p, s, f, c, t, v}, see RangeWalk.tla.  walk: i = push of node i, -i = pop.
 func init() {
@@ -470,6 +473,7 @@ type rwRun struct {
 	ctl   map[int]int
 	cnt   int
 	stack []string
+	cb    int
 	walk  []any
 	vals  []any
 	ok    bool
@@ -596,7 +600,9 @@ func (r *rwRun) callback(push bool) func(protopath.Values) error {
 			parts[i] = rwRealStepKey(s)
 		}
 		key := strings.Join(parts, "/")
-		if push {
+		if r.cb != 0 {
+			// with one kind of callback the stack of open steps cannot be mirrored here
+		} else if push {
 			parent := ""
 			if len(r.stack) > 0 {
 				parent = r.stack[len(r.stack)-1] + "/"
@@ -687,7 +693,7 @@ func rwExec(c core.Case) core.Case {
 		}
 		out["tree"] = tc
 	}
-	run := &rwRun{root: root, res: res, keys: rwTreeKeys(tree), ctl: map[int]int{}, ok: true}
+	run := &rwRun{root: root, res: res, keys: rwTreeKeys(tree), ctl: map[int]int{}, ok: true, cb: core.Int(c["cb"])}
 	for _, x := range core.List(c["ctl"]) {
 		kc := core.List(x)
 		run.ctl[core.Int(kc[0])] = core.Int(kc[1])
@@ -696,7 +702,19 @@ func rwExec(c core.Case) core.Case {
 	if optRes != nil {
 		opts.Resolver = optRes
 	}
-	err := opts.Range(root, run.callback(true), run.callback(false))
+	var err error
+	switch run.cb {
+	case 0:
+		err = opts.Range(root, run.callback(true), run.callback(false))
+	case 1:
+		if optRes == nil && !opts.Stable {
+			err = protorange.Range(root, run.callback(true))
+		} else {
+			err = opts.Range(root, run.callback(true), nil)
+		}
+	default:
+		err = opts.Range(root, nil, run.callback(false))
+	}
 	ret := 9
 	switch err {
 	case nil:
@@ -713,6 +731,24 @@ func rwExec(c core.Case) core.Case {
 	if len(run.stack) != 0 {
 		run.fail("steps left open")
 	}
+	ids := make([]int, len(run.walk))
+	for i, x := range run.walk {
+		ids[i] = x.(int)
+		if ids[i] < 0 {
+			ids[i] = -ids[i]
+		}
+	}
+	sort.Ints(ids)
+	var uniq []any
+	for i, x := range ids {
+		if i == 0 || ids[i-1] != x {
+			uniq = append(uniq, x)
+		}
+	}
+	if uniq == nil {
+		uniq = []any{}
+	}
+	out["ids"] = uniq
 	if run.walk == nil {
 		run.walk = []any{}
 	}
@@ -943,10 +979,16 @@ func rwGen(r *rand.Rand, n int, emit func(core.Case)) {
 			k1 := 1 + r.IntN(2*steps)
 			ctl = append(ctl, []any{k1, 1 + r.IntN(3)}, []any{k1 + 1 + r.IntN(2*steps), 1 + r.IntN(4)})
 		}
-		stable := 1
+		stable, cb := 1, 0
 		if r.IntN(3) == 0 {
 			stable = 0
 		}
-		emit(core.Case{"typ": typ, "b": core.B(b), "ctl": ctl, "stable": stable})
+		if r.IntN(5) == 0 {
+			cb = 1 + r.IntN(2)
+			if stable == 0 {
+				ctl = []any{} // only order-independent facts can be checked: no control values
+			}
+		}
+		emit(core.Case{"typ": typ, "b": core.B(b), "ctl": ctl, "stable": stable, "cb": cb})
 	}
 }
